@@ -5,8 +5,9 @@ import itertools
 from fractions import Fraction
 from props.common import bounded
 
-LEVEL_TEXT = ("Deductive: SUM / MIN / MAX / COUNT / AVERAGE / MEDIAN return the named statistic (sum, min, max, statistics.* as assumed "
-              "library functions) of exactly the flattened items, for any number of numeric items; LARGE is index-safe (#NUM! outside 1..len); "
+LEVEL_TEXT = ("Deductive: SUM / PRODUCT / MIN / MAX / COUNT / AVERAGE / MEDIAN return the named statistic (sum, product, min, max, statistics.* as assumed "
+              "library functions) of exactly the flattened items, for any number of numeric items, and an error value among any number of items is the "
+              "outcome (6 functions); LARGE is index-safe (#NUM! outside 1..len); "
               "parse_criteria compiles operator / bare-value / wildcard criteria into the predicate of the statement (item matched against the "
               "criterion); MAXIFS is the maximum of exactly the selected items, 0 when nothing is selected (loop invariant with quantifiers, "
               "integer items).  The flattening generators (iflatten, inumbers) are outside the subset: callers use their contract, the bodies "
